@@ -1,10 +1,11 @@
 import AlgoVerif.Driver.C37
-/-! exe `c37`: the merklearray model behind the line protocol. Args: `lenl|fixed` `nodepth|depth`. -/
+/-! exe `c37`: the merklearray model behind the line protocol. Args: `lenl|fixed` `nodepth|depth` [`hashcheck`]. -/
 open AlgoVerif
 def main (args : List String) : IO UInt32 := do
   let fixedOff := args.contains "fixed"
   let checkDepth := args.contains "depth"
+  let checkHash := args.contains "hashcheck"
   if ¬ (args.contains "fixed" ∨ args.contains "lenl") ∨ ¬ (args.contains "depth" ∨ args.contains "nodepth") then
     IO.eprintln "usage: c37 lenl|fixed nodepth|depth"
     return 2
-  Drv.mapLines (Driver.C37.handle fixedOff checkDepth); return 0
+  Drv.mapLines (Driver.C37.handle fixedOff checkDepth checkHash); return 0
